@@ -707,6 +707,36 @@ static void run_xor(void)
             uint32_t full = (1u << n) - 1;
             rng_t r; rng_seed(&r, MO.seed, 99);
             int ne = gen_esets(n, g->k, g->hd - 1, 4000, &r, es, &ex);
+            /* fragments of half a MiB decoded / reconstructed on a thread with a 192 KiB stack, the erasure set being a data
+             * triple that only the P xor Q route can start (what a call needs on the stack does not grow with the payload) */
+            if (g->hd == 4 && g->k <= 12 && x.desc > 0) {
+                uint32_t t3 = 0;
+                for (int a1 = 0; a1 < g->k && !t3; a1++) for (int b1 = a1 + 1; b1 < g->k && !t3; b1++) for (int c1 = b1 + 1; c1 < g->k && !t3; c1++) {
+                    uint32_t tt = 1u << a1 | 1u << b1 | 1u << c1; int iso = 0;
+                    for (int pp = 0; pp < g->m; pp++) if (__builtin_popcount(g->parity_bms[pp] & tt) == 1) iso = 1;
+                    if (!iso) tt ? (t3 = tt) : 0;
+                }
+                if (t3 && mon_case("%s|large-fragments-on-a-small-stack|E=0x%x", x.ck, t3)) {
+                    uint64_t bl = (uint64_t)g->k * 524288 + 4; uint8_t *bdata = malloc(bl); rng_t rb; rng_case(&rb); rng_fill(&rb, bdata, bl);
+                    stripe_t bs;
+                    if (stripe_make(&bs, x.desc, &c, bdata, bl) != 0) mon_viol("C05", "encode-failed", "encode of %llu bytes failed", (unsigned long long)bl);
+                    else {
+                        char *lst[32]; int cnt = 0; for (int f = 0; f < n; f++) if (!(t3 >> f & 1)) lst[cnt++] = (char *)bs.frag[f];
+                        char *out = NULL; uint64_t ol = 0; uint8_t *of = malloc(bs.flen);
+                        callargs_t ca = { x.desc, lst, cnt, bs.flen, 0, &out, &ol, __builtin_ctz(t3), (char *)of };
+                        int rc = on_small_stack(do_decode, &ca);
+                        mon_count("evaluations", 2); mon_count("large_fragment_calls_on_small_stack", 2);
+                        if (rc != 0 || ol != bl || memcmp(out, bdata, bl)) mon_viol("C05", "decode-wrong-bytes", "decode of a P-xor-Q triple with 512 KiB fragments on a 192 KiB stack: rc=%d", rc);
+                        if (rc == 0) liberasurecode_decode_cleanup(x.desc, out);
+                        rc = on_small_stack(do_reconstruct, &ca);
+                        if (rc != 0 || memcmp(of, bs.frag[ca.dest], bs.flen)) mon_viol("C05", "reconstruct-wrong-bytes", "reconstruct(%d) of a P-xor-Q triple with 512 KiB fragments on a 192 KiB stack: rc=%d", ca.dest, rc);
+                        free(of); stripe_free(&bs);
+                    }
+                    free(bdata);
+                    mon_distinct("nontrivial", mon_hash_u64(t3, mon_hash_str(x.ck, 5252)));
+                    mon_end();
+                }
+            }
             /* the decoder of libXorcode itself (the entry point the backend wraps), asked to rebuild the lost parity too
              * (decode_parity = 1, what the backend passes) and not to (0): the data comes back exactly either way */
             if (init) {
@@ -966,17 +996,32 @@ static void run_needed(int which)
 }
 
 /* ================================================================ C20 */
-enum { DMG_PAYLOAD_BIT, DMG_IDX_RANGE, DMG_BACKEND_ID, DMG_BACKEND_VER, DMG_LIB_VER, DMG_KINDS, DMG_HDR_UNSEALED = DMG_KINDS };
-static const char *dmg_name[] = { "payload-bit", "idx-out-of-range", "backend-id", "backend-version", "libver-newer", "header-bit-unsealed" };
+enum { DMG_PAYLOAD_BIT, DMG_IDX_RANGE, DMG_BACKEND_ID, DMG_BACKEND_VER, DMG_LIB_VER, DMG_OTHER_ENDIAN, DMG_KINDS, DMG_HDR_UNSEALED = DMG_KINDS };
+static const char *dmg_name[] = { "payload-bit", "idx-out-of-range", "backend-id", "backend-version", "libver-newer", "opposite-endian", "header-bit-unsealed" };
+
+/* a fragment that is invalid only by a header field also carries OTHER payload bytes under a matching payload checksum (a
+ * fragment of some other object): if it were used after all, the result would differ */
+static void other_payload(uint8_t *f, uint64_t flen, rng_t *r)
+{
+    if (flen <= 80 || f[REF_OFF_CT] != REF_CT_CRC32) return;
+    uint32_t P = ref_get32(f + REF_OFF_SIZE); if ((uint64_t)P > flen - 80 || P == 0) return;
+    int legacy = ref_get32(f + REF_OFF_CHKSUM) == crc_legacy(f + 80, P) && ref_get32(f + REF_OFF_CHKSUM) != crc_std(f + 80, P);
+    int nb = 1 + (int)rng_below(r, 4);
+    for (int i = 0; i < nb; i++) f[80 + rng_below(r, P)] ^= (uint8_t)(1 + rng_below(r, 255));
+    ref_put32(f + REF_OFF_CHKSUM, legacy ? crc_legacy(f + 80, P) : crc_std(f + 80, P));
+}
 
 static void damage(uint8_t *f, uint64_t flen, int kind, rng_t *r, int n)
 {
     switch (kind) {
     case DMG_PAYLOAD_BIT: if (flen > 80) { uint64_t b = 80 + rng_below(r, (uint32_t)(flen - 80)); f[b] ^= (uint8_t)(1u << rng_below(r, 8)); } break;
-    case DMG_IDX_RANGE: ref_put32(f + REF_OFF_IDX, (uint32_t)(n + 1 + (int)rng_below(r, 5))); ref_hdr_reseal(f, 0); break;
-    case DMG_BACKEND_ID: f[REF_OFF_BEID] ^= (uint8_t)(1 + rng_below(r, 7)); ref_hdr_reseal(f, 0); break;
-    case DMG_BACKEND_VER: ref_put32(f + REF_OFF_BEVER, ref_get32(f + REF_OFF_BEVER) + 1); ref_hdr_reseal(f, 0); break;
-    case DMG_LIB_VER: ref_put32(f + REF_OFF_LIBVER, ref_get32(f + REF_OFF_LIBVER) + 1); ref_hdr_reseal(f, 0); break;
+    case DMG_IDX_RANGE: other_payload(f, flen, r); ref_put32(f + REF_OFF_IDX, (uint32_t)(n + 1 + (int)rng_below(r, 5))); ref_hdr_reseal(f, 0); break;
+    case DMG_BACKEND_ID: other_payload(f, flen, r); f[REF_OFF_BEID] ^= (uint8_t)(1 + rng_below(r, 7)); ref_hdr_reseal(f, 0); break;
+    case DMG_BACKEND_VER: other_payload(f, flen, r); ref_put32(f + REF_OFF_BEVER, ref_get32(f + REF_OFF_BEVER) + 1); ref_hdr_reseal(f, 0); break;
+    case DMG_LIB_VER: other_payload(f, flen, r); ref_put32(f + REF_OFF_LIBVER, ref_get32(f + REF_OFF_LIBVER) + 1 + (rng_below(r, 2) ? 0x010000u : 0)); ref_hdr_reseal(f, 0); break;
+    case DMG_OTHER_ENDIAN: { /* a perfectly sealed fragment of a host of the other byte order (other object): validation of a
+                              * stripe accepts host-order fragments only */
+        other_payload(f, flen, r); ref_hdr_reseal(f, 0); uint8_t t[REF_HDR_LEN]; ref_hdr_twin(f, t, 0); memcpy(f, t, REF_HDR_LEN); } break;
     case DMG_HDR_UNSEALED: {
         /* a metadata bit flipped and NOT re-sealed (index, size, logical size or checksum type), on a fragment stamped with the
          * running version, or with 1.2.0 / 1.2.1 - the oldest writers whose header checksum is verified */
@@ -1130,6 +1175,53 @@ static void run_force(int which)
 }
 
 /* ================================================================ C04 */
+typedef int (*vdec_fn)(int *, char **, char **, int, int, int *, int, int);
+typedef int (*vrec_fn)(int *, char **, char **, int, int, int *, int, int);
+/* the rs_vand plug-in's own decode / reconstruct entry points (the ones the backend wraps) on a generator matrix: decode asked
+ * to rebuild the lost parity too (what the backend passes) and not to, the missing list ascending and descending: "any k of
+ * the k+m fragments determine the data" and every fragment is rebuilt exactly */
+static void direct_rs_plugin_checks(const char *prop, int *g, int k, int m, vdec_fn vdec, vrec_fn vrec)
+{
+    int n = k + m;
+    enum { BS = 48 };
+    char *bd[32], *bp[32]; uint8_t orig[32][BS];
+    rng_t r; rng_case(&r);
+    for (int i = 0; i < k; i++) rng_fill(&r, orig[i], BS);
+    { const uint8_t *dp[32]; for (int i = 0; i < k; i++) dp[i] = orig[i]; for (int j = 0; j < m; j++) rs_model_parity(k, m, dp, BS, k + j, orig[k + j]); }
+    for (int i = 0; i < n; i++) { void *b = NULL; if (posix_memalign(&b, 16, BS)) abort(); if (i < k) bd[i] = b; else bp[i - k] = b; }
+    int tries = MO.thorough ? 40 : 10;
+    for (int t = 0; t < tries; t++) {
+        int perm[32]; for (int i = 0; i < n; i++) perm[i] = i;
+        rng_shuffle(&r, perm, n);
+        int lose = 1 + (int)rng_below(&r, (uint32_t)m);
+        if (t == 0 && m >= 2 && k >= 2) { perm[0] = 1; perm[1] = k; lose = 2; }          /* one data fragment and the first parity */
+        int miss[40], nm = 0; uint32_t er = 0;
+        for (int i = 0; i < lose; i++) er |= 1u << perm[i];
+        for (int i = 0; i < n; i++) if (er >> i & 1) miss[nm++] = i;
+        if (t & 1) for (int i = 0; i < nm / 2; i++) { int q = miss[i]; miss[i] = miss[nm - 1 - i]; miss[nm - 1 - i] = q; }
+        else if (t % 4 == 2 && nm > 2) { int q = miss[0]; miss[0] = miss[1]; miss[1] = q; }
+        miss[nm] = -1;
+        char b[128]; mask_str(er, n, b, sizeof b);
+        for (int rp = 0; rp < 2 && vdec; rp++) {
+            for (int i = 0; i < n; i++) { char *bf = i < k ? bd[i] : bp[i - k]; if (er >> i & 1) memset(bf, 0, BS); else memcpy(bf, orig[i], BS); }
+            int rc = vdec(g, bd, bp, k, m, miss, BS, rp);
+            mon_count("evaluations", 1); mon_count("direct_rs_decoder_calls", 1);
+            int wrong = -1;
+            for (int i = 0; i < (rp ? n : k); i++) if (memcmp(i < k ? bd[i] : bp[i - k], orig[i], BS)) { wrong = i; break; }
+            for (int i = 0; i < n && wrong < 0; i++) if (!(er >> i & 1) && memcmp(i < k ? bd[i] : bp[i - k], orig[i], BS)) wrong = i;
+            if (rc != 0 || wrong >= 0) { mon_viol(prop, "direct-decode-wrong", "liberasurecode_rs_vand_decode(rebuild_parity=%d) with %s lost (list starting with %d): rc=%d, fragment %d %s", rp, b, miss[0], rc, wrong, wrong >= 0 ? "differs from the original" : ""); t = tries; break; }
+        }
+        for (int q = 0; q < nm && vrec && t < tries; q++) {
+            int dest = miss[q];
+            for (int i = 0; i < n; i++) { char *bf = i < k ? bd[i] : bp[i - k]; if (er >> i & 1) memset(bf, 0, BS); else memcpy(bf, orig[i], BS); }
+            int rc = vrec(g, bd, bp, k, m, miss, dest, BS);
+            mon_count("evaluations", 1); mon_count("direct_rs_reconstruct_calls", 1);
+            if (rc != 0 || memcmp(dest < k ? bd[dest] : bp[dest - k], orig[dest], BS)) { mon_viol(prop, "direct-reconstruct-wrong", "liberasurecode_rs_vand_reconstruct(destination %d) with %s lost (list starting with %d): rc=%d%s", dest, b, miss[0], rc, rc ? "" : ", fragment differs from the original"); t = tries; break; }
+        }
+    }
+    for (int i = 0; i < n; i++) free(i < k ? bd[i] : bp[i - k]);
+}
+
 typedef int *(*mksys_fn)(int, int);
 typedef void (*freesys_fn)(int *);
 typedef void (*initrs_fn)(int, int);
@@ -1142,6 +1234,8 @@ static void run_canonical(void)
     freesys_fn fr = h ? (freesys_fn)dlsym(h, "free_systematic_matrix") : NULL;
     initrs_fn in = h ? (initrs_fn)dlsym(h, "init_liberasurecode_rs_vand") : NULL;
     deinitrs_fn de = h ? (deinitrs_fn)dlsym(h, "deinit_liberasurecode_rs_vand") : NULL;
+    vdec_fn vdec = h ? (vdec_fn)dlsym(h, "liberasurecode_rs_vand_decode") : NULL;
+    vrec_fn vrec = h ? (vrec_fn)dlsym(h, "liberasurecode_rs_vand_reconstruct") : NULL;
     if (mon_case_all("rs_vand|plugin-symbols")) {
         if (!mk || !fr || !in || !de) mon_viol("C04", "plugin-symbols-missing", "liberasurecode_rs_vand.so.1 does not export the matrix functions");
         mon_end();
@@ -1168,6 +1262,7 @@ static void run_canonical(void)
                   if (!g2 || !g4 || memcmp(g, g2, sizeof(int) * (size_t)(n * k)) || memcmp(g, g4, sizeof(int) * (size_t)(n * k))) mon_viol("C04", "generator-not-reproducible", "make_systematic_matrix(%d,%d) returned a different matrix when asked again", k, m);
                   if (g2) fr(g2); if (g3) fr(g3); if (g4) fr(g4); mon_count("evaluations", 2); }
                 mon_distinct("nontrivial", mon_hash_u64((uint64_t)(k * 100 + m), 9));
+                if ((vdec || vrec) && n <= 16 && !bad) direct_rs_plugin_checks("C04", g, k, m, vdec, vrec);
                 /* MDS: every k-subset of rows invertible (library's own matrix, monitor's elimination) */
                 uint32_t gm[32 * 32]; for (int i = 0; i < n * k; i++) gm[i] = (uint32_t)g[i];
                 if (n <= sub_n) {
@@ -1361,6 +1456,88 @@ static void run_isal_faults(void)
     }
 }
 
+/* C03: the same direct plug-in calls for the shapes up to 12 fragments (reconstruct fidelity of the code itself) */
+static void run_direct_rs_plugin(void)
+{
+    void *h = dlopen("liberasurecode_rs_vand.so.1", RTLD_NOW);
+    mksys_fn mk = h ? (mksys_fn)dlsym(h, "make_systematic_matrix") : NULL; freesys_fn fr = h ? (freesys_fn)dlsym(h, "free_systematic_matrix") : NULL;
+    initrs_fn in = h ? (initrs_fn)dlsym(h, "init_liberasurecode_rs_vand") : NULL; deinitrs_fn de = h ? (deinitrs_fn)dlsym(h, "deinit_liberasurecode_rs_vand") : NULL;
+    vdec_fn vdec = h ? (vdec_fn)dlsym(h, "liberasurecode_rs_vand_decode") : NULL; vrec_fn vrec = h ? (vrec_fn)dlsym(h, "liberasurecode_rs_vand_reconstruct") : NULL;
+    if (!mk || !fr || !in || !de || !vrec) { if (mon_case_all("rs_vand|plugin-symbols")) { mon_viol(PROP, "plugin-symbols-missing", "liberasurecode_rs_vand.so.1 does not export its entry points"); mon_end(); } return; }
+    int inited = 0;
+    if (mon_case_all("rs_vand|direct-plugin|init-tables")) { in(4, 2); inited = 1; mon_end(); }
+    if (!inited) return;
+    for (int k = 1; k <= 11; k++) for (int m = 1; k + m <= 12; m++) {
+        if (!mon_case("rs_vand|k=%d,m=%d|direct-plugin-calls", k, m)) continue;
+        int *g = mk(k, m);
+        if (g) { direct_rs_plugin_checks(PROP, g, k, m, vdec, vrec); fr(g); }
+        mon_distinct("nontrivial", mon_hash_u64((uint64_t)(k * 100 + m), 303));
+        mon_end();
+    }
+    if (mon_case_all("rs_vand|direct-plugin|deinit-tables")) { de(); mon_end(); }
+    dlclose(h);
+}
+
+/* ================================================================ the backend operations themselves (end of C03 / C19-reconstruct)
+ * decode and reconstruct called through the instance's operation table - the entry points the front end dispatches to - with
+ * the missing list in ascending, descending and "parity first" order: a list names a set. */
+extern ec_backend_t liberasurecode_backend_instance_get_by_desc(int desc);
+static void run_direct_backend_ops(int which)
+{
+    static const cfg_t cf[] = { { EC_BACKEND_ISA_L_RS_VAND, 6, 4, 4, 0, CHKSUM_NONE }, { EC_BACKEND_ISA_L_RS_CAUCHY, 6, 4, 4, 0, CHKSUM_NONE }, { EC_BACKEND_ISA_L_RS_VAND, 3, 5, 5, 0, CHKSUM_NONE }, { EC_BACKEND_ISA_L_RS_CAUCHY, 10, 3, 3, 0, CHKSUM_NONE },
+                                { EC_BACKEND_LIBERASURECODE_RS_VAND, 6, 4, 4, 0, CHKSUM_NONE }, { EC_BACKEND_JERASURE_RS_VAND, 4, 3, 3, 0, CHKSUM_NONE }, { EC_BACKEND_FLAT_XOR_HD, 10, 5, 4, 0, CHKSUM_NONE }, { EC_BACKEND_LIBERASURECODE_RS_VAND, 3, 5, 5, 0, CHKSUM_NONE } };
+    noise_stop();
+    for (size_t ci = 0; ci < sizeof cf / sizeof cf[0]; ci++) {
+        cfg_t c = cf[ci];
+        int isal = c.be == EC_BACKEND_ISA_L_RS_VAND || c.be == EC_BACKEND_ISA_L_RS_CAUCHY;
+        if ((which == 2) != isal) continue;
+        if (!liberasurecode_backend_available((ec_backend_id_t)c.be)) continue;
+        char ck[96]; cfg_key(&c, ck, sizeof ck);
+        int d = -1; stripe_t st; uint64_t len = (uint64_t)c.k * 64; uint8_t *data = malloc(len); rng_t r; rng_seed(&r, MO.seed, 8080 + ci); rng_fill(&r, data, len);
+        if (mon_case_all("%s|backend-ops|setup", ck)) { d = lec_create(&c); if (d <= 0 || stripe_make(&st, d, &c, data, len) != 0) { mon_viol(PROP, "setup-failed", "create/encode"); if (d > 0) liberasurecode_instance_destroy(d); d = -1; } mon_end(); }
+        if (d <= 0) { free(data); continue; }
+        ec_backend_t inst = liberasurecode_backend_instance_get_by_desc(d);
+        int n = c.k + c.m, k = c.k, tol = cfg_tol(&c); uint64_t P = st.flen - 80;
+        code_t cd; code_init(&cd, &c);
+        char *bd[32], *bp[32];
+        for (int i = 0; i < n; i++) { void *b = NULL; if (posix_memalign(&b, 16, P)) abort(); if (i < k) bd[i] = b; else bp[i - k] = b; }
+        int cb[32];
+        for (int sz = 2; sz <= tol && sz <= 3 && inst; sz++) {
+            comb_first(cb, sz);
+            do {
+                uint32_t er = mask_of(cb, sz);
+                if (!(er & ((1u << k) - 1)) || !(er >> k)) continue;                 /* at least one data and one parity fragment lost */
+                if (isal && !code_firstk_invertible(&cd, (n == 32 ? 0xffffffffu : ((1u << n) - 1)) & ~er)) continue;
+                char em[128]; mask_str(er, n, em, sizeof em);
+                if (!mon_case("%s|backend-ops|E=%s", ck, em)) continue;
+                for (int order = 0; order < 3; order++) {
+                    int miss[40], nm = 0;
+                    for (int i = 0; i < n; i++) if (er >> i & 1) miss[nm++] = i;
+                    if (order == 1) for (int i = 0; i < nm / 2; i++) { int q = miss[i]; miss[i] = miss[nm - 1 - i]; miss[nm - 1 - i] = q; }
+                    if (order == 2) { int q = miss[0]; miss[0] = miss[nm - 1]; miss[nm - 1] = q; }      /* a parity index first, data behind it */
+                    miss[nm] = -1;
+                    for (int op = 0; op <= nm; op++) {
+                        for (int i = 0; i < n; i++) { char *b = i < k ? bd[i] : bp[i - k]; if (er >> i & 1) memset(b, 0, P); else memcpy(b, st.frag[i] + 80, P); }
+                        int dest = op < nm ? miss[op] : -1, rc;
+                        if (dest < 0) rc = inst->common.ops->decode(inst->desc.backend_desc, bd, bp, miss, (int)P);
+                        else rc = inst->common.ops->reconstruct(inst->desc.backend_desc, bd, bp, miss, dest, (int)P);
+                        mon_count("evaluations", 1); mon_count("backend_ops_called_directly", 1);
+                        int wrong = -1;
+                        if (rc == 0) { if (dest >= 0) { if (memcmp(dest < k ? bd[dest] : bp[dest - k], st.frag[dest] + 80, P)) wrong = dest; }
+                                       else for (int i = 0; i < k; i++) if (memcmp(bd[i], st.frag[i] + 80, P)) { wrong = i; break; } }
+                        if (rc != 0 || wrong >= 0) { mon_viol(PROP, "backend-op-wrong", "%s op of %s with %s lost, list order %s: rc=%d%s", dest < 0 ? "decode" : "reconstruct", be_name(c.be), em, order == 0 ? "ascending" : order == 1 ? "descending" : "parity first", rc, wrong >= 0 ? ", wrong bytes" : ""); order = 3; break; }
+                    }
+                }
+                mon_distinct("nontrivial", mon_hash_u64(er, mon_hash_str(ck, 8081)));
+                mon_end();
+            } while (comb_next(cb, sz, n));
+        }
+        for (int i = 0; i < n; i++) free(i < k ? bd[i] : bp[i - k]);
+        if (mon_case_all("%s|backend-ops|teardown", ck)) { stripe_free(&st); liberasurecode_instance_destroy(d); mon_end(); }
+        free(data);
+    }
+}
+
 /* ================================================================ long runs of calls on one thread and instance
  * (C01 / C03 / C04 each end with it).  Whatever the library keeps between calls - counters, generation stamps, caches - gets
  * more than 2^16 consecutive decode and reconstruct calls of a few fixed erasure patterns; fragment 1 is listed as lost in
@@ -1548,7 +1725,7 @@ int main(int argc, char **argv)
     if (MO.noise) noise_start();
     if (!strcmp(PROP, "C01")) { run_roundtrip(isal_available() ? 3 : 1); run_long_sequence(); run_instance_churn(); }
     else if (!strcmp(PROP, "C02")) { run_nosilent(1); run_instance_churn(); }
-    else if (!strcmp(PROP, "C03")) { run_reconstruct(1); run_long_sequence(); run_instance_churn(); }
+    else if (!strcmp(PROP, "C03")) { run_reconstruct(1); run_direct_rs_plugin(); run_direct_backend_ops(1); run_long_sequence(); run_instance_churn(); }
     else if (!strcmp(PROP, "C04")) { run_canonical(); run_long_sequence(); }
     else if (!strcmp(PROP, "C05")) run_xor();
     else if (!strcmp(PROP, "C06")) run_needed(1);
@@ -1556,7 +1733,7 @@ int main(int argc, char **argv)
     else if (!strcmp(PROP, "C19")) {
         if (!strcmp(MO.mode, "roundtrip")) run_roundtrip(2);
         else if (!strcmp(MO.mode, "nosilent")) run_nosilent(2);
-        else if (!strcmp(MO.mode, "reconstruct")) run_reconstruct(2);
+        else if (!strcmp(MO.mode, "reconstruct")) { run_reconstruct(2); run_direct_backend_ops(2); }
         else if (!strcmp(MO.mode, "needed")) run_needed(2);
         else if (!strcmp(MO.mode, "faults")) run_isal_faults();
         else { run_roundtrip(2); run_nosilent(2); run_reconstruct(2); run_needed(2); run_isal_faults(); }
